@@ -130,6 +130,53 @@ func (b Block) String() string {
 	)
 }
 
+// CopyBlocks returns deep copies of src. The copies share no memory with
+// src, so a caller may attach logs, receipts and traces to them while src
+// is being copied or read elsewhere.
+func CopyBlocks(src []Block) []Block {
+	dst := make([]Block, len(src))
+	for i := range src {
+		dst[i].Header = src[i].Header
+		dst[i].Header.Hash = src[i].Header.Hash.clone()
+		dst[i].Header.Parent = src[i].Header.Parent.clone()
+		dst[i].Header.LogsBloom = src[i].Header.LogsBloom.clone()
+		if src[i].Txs == nil {
+			continue
+		}
+		dst[i].Txs = make(Txs, len(src[i].Txs))
+		for j := range src[i].Txs {
+			src[i].Txs[j].copyTo(&dst[i].Txs[j])
+		}
+	}
+	return dst
+}
+
+func (hb Bytes) clone() Bytes {
+	if hb == nil {
+		return nil
+	}
+	return append(make(Bytes, 0, len(hb)), hb...)
+}
+
+func (ls Logs) clone() Logs {
+	if ls == nil {
+		return nil
+	}
+	c := make(Logs, len(ls))
+	for i := range ls {
+		c[i].Idx = ls[i].Idx
+		c[i].Address = ls[i].Address.clone()
+		c[i].Data = ls[i].Data.clone()
+		if ls[i].Topics != nil {
+			c[i].Topics = make([]Bytes, len(ls[i].Topics))
+			for j := range ls[i].Topics {
+				c[i].Topics[j] = ls[i].Topics[j].clone()
+			}
+		}
+	}
+	return c
+}
+
 func (b *Block) Tx(idx uint64) *Tx {
 	for i := range b.Txs {
 		if uint64(b.Txs[i].Idx) == idx {
@@ -228,6 +275,43 @@ type Tx struct {
 	PrecompHash  Bytes `json:"hash"`
 	cacheMut     sync.Mutex
 	rbuf, signer []byte
+}
+
+func (tx *Tx) copyTo(dst *Tx) {
+	dst.Receipt = tx.Receipt
+	dst.Receipt.Logs = tx.Receipt.Logs.clone()
+	dst.Receipt.ContractAddress = tx.Receipt.ContractAddress.clone()
+	dst.Idx = tx.Idx
+	dst.Type = tx.Type
+	dst.ChainID = tx.ChainID
+	dst.Nonce = tx.Nonce
+	dst.GasPrice = tx.GasPrice
+	dst.GasLimit = tx.GasLimit
+	dst.From = tx.From.clone()
+	dst.To = tx.To.clone()
+	dst.Value = tx.Value
+	dst.Data = tx.Data.clone()
+	dst.V, dst.R, dst.S = tx.V, tx.R, tx.S
+	if tx.TraceActions != nil {
+		dst.TraceActions = make([]TraceAction, len(tx.TraceActions))
+		for i, ta := range tx.TraceActions {
+			ta.From = ta.From.clone()
+			ta.To = ta.To.clone()
+			dst.TraceActions[i] = ta
+		}
+	}
+	if tx.AccessList != nil {
+		dst.AccessList = make(AccessTuples, len(tx.AccessList))
+		for i, at := range tx.AccessList {
+			at.StorageKeys = append([][32]byte(nil), at.StorageKeys...)
+			dst.AccessList[i] = at
+		}
+	}
+	dst.MaxPriorityFeePerGas = tx.MaxPriorityFeePerGas
+	dst.MaxFeePerGas = tx.MaxFeePerGas
+	dst.PrecompHash = tx.PrecompHash.clone()
+	dst.rbuf = append([]byte(nil), tx.rbuf...)
+	dst.signer = append([]byte(nil), tx.signer...)
 }
 
 func (tx *Tx) Hash() []byte {
